@@ -136,7 +136,11 @@ def m_asref(ctx): return ctx.ret(ctx.args[0])
 @model(r'^(?:std::string::)?String::as_str$|^(?:std::string::)?String::as_mut_str$|^<String as .*>::as_str$|KebabString::as_str$|KebabStr::as_str$|^std::path::PathBuf::as_path$')
 def m_as_str(ctx): return ctx.ret(ctx.args[0])
 @model(r'^<(?:str|String|std::string::String|&str|&String|&&str) as (?:ToString|ToOwned|Clone)>::(?:to_string|to_owned|clone)$|^<String as From<&(?:mut )?(?:str|String)>>::from$|^<str as Into<String>>::into$|^<&str as Into<String>>::into$|^core::str::<impl str>::to_owned$|^<&str as Into<Box<str>>>::into$')
-def m_to_string(ctx): return ctx.ret(as_str(ctx, ctx.args[0]))
+def m_to_string(ctx):
+    if ctx.eng.atom_strings:
+        v = ctx.deref(ctx.args[0])
+        if isinstance(v, Lazy) or type(v).__name__ == 'Atom': return ctx.ret(v)
+    return ctx.ret(as_str(ctx, ctx.args[0]))
 @model(r'^<(?:&)?(?:u8|u16|u32|u64|usize|i8|i16|i32|i64|isize|bool|char) as Clone>::clone$')
 def m_clone_scalar(ctx): return ctx.ret(ctx.deref(ctx.args[0]))
 @model(r'^<.* as Into<.*>>::into$|^<.* as From<.*>>::from$')
